@@ -54,10 +54,18 @@ def cond_atoms(ctx, c, pol=True, subst=None):
             alts = [cond_atoms(ctx, c["l"], True, subst), cond_atoms(ctx, c["r"], True, subst)]
             return [("or", alts)]
         if op in NEG:
-            if not pol:
-                op = NEG[op]
             a = ctx.term(c["l"], subst)
             b = ctx.term(c["r"], subst)
+            if not pol:
+                # not(a < b) is `a >= b` only for totally ordered operands.  For floats (NaN) and for a generic
+                # PartialOrd element type the negation of an ORDERED comparison is kept as such ('ncmp'): it must
+                # not be mistaken for the flipped comparison.  == / != negate exactly for every type.
+                lt = base_ty(ty_of(c["l"]))
+                if op in ("<", "<=", ">", ">=") and lt not in INT_TYS and lt not in ("bool", "char"):
+                    if op in (">", ">="):
+                        op, a, b = FLIP[op], b, a
+                    return [("ncmp", op, a, b)]
+                op = NEG[op]
             return [norm_cmp(op, a, b, overloaded=c.get("fn"))]
     t = ctx.term(c, subst)
     return [("bool", t, pol)]
@@ -206,7 +214,7 @@ def term_vars(t, acc=None):
 
 
 def fact_terms(f):
-    if f[0] == "cmp":
+    if f[0] in ("cmp", "ncmp"):
         return [f[2], f[3]]
     if f[0] == "bool":
         return [f[1]]
